@@ -261,3 +261,96 @@ class ensure_minimum_chunksize:
         for n, c in chunkings(7 if tier == "quick" else 10):
             for size in range(0, 9):
                 yield {"size": size, "chunks": c}
+
+
+# ---------------------------------------------------------------------------
+# normalize_chunks for explicit integer sizes (and -1 / None = whole axis): proved
+# ---------------------------------------------------------------------------
+@contract(f"{CORE}::_convert_int_chunk_to_tuple", spec="rank1", props=["C16"])
+class convert_int_chunk_rank1:
+    params = {"shape": "tup:int", "chunks": "tup:int"}
+    result = "tup:seq"
+
+    def requires(shape, chunks):
+        d, bd = S.item(shape, 0), S.item(chunks, 0)
+        return S.And(d >= 0, S.Or(bd > 0, d == 0))
+
+    def ensures(result, shape, chunks):
+        return uniform_axis(S.item(result, 0), S.item(shape, 0), S.item(chunks, 0))
+
+
+@contract(f"{CORE}::_convert_int_chunk_to_tuple", spec="rank2", props=["C16"])
+class convert_int_chunk_rank2:
+    params = {"shape": "tup:int,int", "chunks": "tup:int,int"}
+    result = "tup:seq,seq"
+
+    def requires(shape, chunks):
+        return S.And([S.And(S.item(shape, a) >= 0, S.Or(S.item(chunks, a) > 0, S.item(shape, a) == 0)) for a in (0, 1)])
+
+    def ensures(result, shape, chunks):
+        out = {}
+        for a in (0, 1):
+            for k, v in uniform_axis(S.item(result, a), S.item(shape, a), S.item(chunks, a)).items():
+                out[f"axis{a}-{k}"] = v
+        return out
+
+
+def _full_or(c, s):
+    return S.If(c == -1, s, c)
+
+
+@contract(f"{CORE}::normalize_chunks", spec="ints-rank1", props=["C16"])
+class normalize_chunks_ints_rank1:
+    """an explicit uniform size c yields blocks of size c except a smaller positive last one; -1 means the whole axis;
+    an empty axis is the single chunk (0,)"""
+    params = {"chunks": "tup:int", "shape": "tup:int"}
+    result = "tup:seq"
+    raises = {"ValueError": None}
+
+    def requires(chunks, shape):
+        c, s = S.item(chunks, 0), S.item(shape, 0)
+        return S.And(s >= 0, S.Or(c >= 1, c == -1), S.Or(s >= 1, c != -1))
+
+    def ensures(result, chunks, shape):
+        c, s = S.item(chunks, 0), S.item(shape, 0)
+        return uniform_axis(S.item(result, 0), s, _full_or(c, s))
+
+    def call(fn, chunks, shape):
+        return fn(chunks, shape)
+
+    def domain(tier, rng):
+        for s in range(0, 25):
+            for c in [-1] + list(range(1, 9)):
+                yield {"chunks": (c,), "shape": (s,)}
+
+
+@contract(f"{CORE}::normalize_chunks", spec="ints-rank2", props=["C16"])
+class normalize_chunks_ints_rank2:
+    params = {"chunks": "tup:int,int", "shape": "tup:int,int"}
+    result = "tup:seq,seq"
+    raises = {"ValueError": None}
+
+    def requires(chunks, shape):
+        pre = []
+        for a in (0, 1):
+            c, s = S.item(chunks, a), S.item(shape, a)
+            pre += [s >= 0, S.Or(c >= 1, c == -1), S.Or(s >= 1, c != -1)]
+        return S.And(pre)
+
+    def ensures(result, chunks, shape):
+        out = {}
+        for a in (0, 1):
+            c, s = S.item(chunks, a), S.item(shape, a)
+            for k, v in uniform_axis(S.item(result, a), s, _full_or(c, s)).items():
+                out[f"axis{a}-{k}"] = v
+        return out
+
+    def call(fn, chunks, shape):
+        return fn(chunks, shape)
+
+    def domain(tier, rng):
+        for s0 in (0, 1, 5, 12):
+            for s1 in (0, 3, 7):
+                for c0 in (-1, 1, 2, 5):
+                    for c1 in (-1, 1, 3):
+                        yield {"chunks": (c0, c1), "shape": (s0, s1)}
